@@ -50,7 +50,7 @@ def term1c(E, v):
     cache = E.ps.setdefault("term2", {})
     if key not in cache:
         fs = v.snapshot()
-        i = z3.Int(fresh_name("di"))
+        i = z3.Int("di!bound")        # fixed bound-variable name: alpha-equivalent row terms are identical terms
         cache[key] = z3.Lambda([i], fs.get(i))
     return cache[key]
 
@@ -384,6 +384,12 @@ def install(R):
         return self_obj
     R.fns["sklearn.tree.DecisionTreeRegressor.fit"] = _dtr_fit
 
+    def _dtr_predict(E, self_obj, X, check_input=True):
+        out = NdArr.fresh("tree_pred", (X.shape[0],), "real")
+        E.trace.append(dict(op="DecisionTreeRegressor.predict", obj=self_obj, X=X, result=out))
+        return out
+    R.fns["sklearn.tree.DecisionTreeRegressor.predict"] = _dtr_predict
+
     def _signature(E, fn):
         o = Obj("Signature", tag="Signature")
         names = ["X", "y", "sample_weight"]
@@ -646,6 +652,18 @@ def install(R):
     R.fns["sklearn.cluster.KMeans.transform"] = _kmeans_transform
     R.fns["sklearn.cluster.KMeans._check_test_data"] = lambda E, self_obj, X: X
     R.ext_methods.setdefault("sklearn.cluster.KMeans", {})["_check_test_data"] = "sklearn.cluster.KMeans._check_test_data"
+    dot1F = z3.Function("dot1", RA1, RA1, z3.RealSort())
+    R.dot1F = dot1F
+
+    def _dot(E, a, b, **kw):
+        if isinstance(a, NdArr) and isinstance(b, NdArr) and a.ndim == 1 and b.ndim == 1:
+            from .npmodel import shapes_equal
+            shapes_equal(E, a.shape, b.shape, None, "dot-shape")
+            return dot1F(term1c(E, a), term1c(E, b))
+        if isinstance(a, NdArr) and isinstance(b, NdArr) and a.ndim == 2 and b.ndim == 1:
+            return matmul(E, a, b, None)
+        raise Unsupported("numpy.dot(%r, %r)" % (a, b))
+    R.fns["numpy.dot"] = _dot
     R.fns["scipy.sparse.issparse"] = lambda E, X: False if isinstance(X, NdArr) else (_ for _ in ()).throw(Unsupported("issparse"))
     R.fns["sklearn.utils.extmath.row_norms"] = lambda E, X, squared=False: NdArr.fresh("row_norms", (X.shape[0],), "real")
 
